@@ -5,7 +5,7 @@ From AV Require Import Generated.Table Spec.Utf8 Spec.Vt Spec.Strip Model.Base M
   Proofs.TableFacts Proofs.StripMachine Proofs.StripSim Proofs.StripStr Proofs.StripPieces Proofs.StripVisible
   Generated.StripFn Proofs.StripGen.
 From AV Require Import Spec.Io Model.Stream Generated.StreamFn Proofs.StreamGen.
-From AV Require Import Model.Utf8parse Model.Imp Generated.Utf8parseFn Proofs.Utf8parseGen.
+From AV Require Import Model.Utf8parse Model.Imp Generated.Utf8parseFn Proofs.Utf8parseGen Proofs.Utf8parseStrip.
 Import ListNotations.
 Local Open Scope N_scope.
 
@@ -146,3 +146,13 @@ Proof. exact g_u8_parser_advance_eq. Qed.
 Theorem c01_translated_utf8parse_new :
   g_u8_parser_new = u8_new /\ g_u8_parser_default = u8_new.
 Proof. exact (conj g_u8_parser_new_eq g_u8_parser_default_eq). Qed.
+
+(* the way Generated/StripFn.v consumes the decoder (hand model first, then the translated Receiver method its
+   answer names) is the translated decoder on a call-recording receiver, the calls delivered in order to the
+   translated methods of anstream's VtUtf8Receiver *)
+Theorem c01_translated_utf8_add_over_translated_decoder :
+  forall u b,
+    ('(u', evs) <- g_u8_parser_advance (u8p_inner u) [] b ;;
+     Some (set_u8p_inner u u', u8_deliver g_receiver_codepoint g_receiver_invalid_sequence evs false))
+    = Some (g_utf8_add u b).
+Proof. exact strip_utf8_add_over_translated_decoder. Qed.
